@@ -10,7 +10,7 @@ PROP = "C15"
 STMT = b'fn f() {\n    info!("needs a reference");\n}\n'
 EXT_LISTS = [["rs"], ["rs", "rsx"], ["RS"], ["bak", "Rs"], ["rs", "txt", "x"]]
 SRC_FORMS = ["plain", "dot", "dotdot", "absolute", "nested", "trailing_slash", "symlink_dotdot"]
-CFG_FORMS = ["absolute", "relative", "bare"]
+CFG_FORMS = ["absolute", "relative", "bare", "via_symlink"]
 CWDS = ["config_dir", "parent", "unrelated"]
 
 
@@ -38,8 +38,17 @@ def build_layout(box, rnd, srcrel):
     extra_depth = rnd.randrange(0, 3)
     for k in range(extra_depth):
         names.append("/".join("n%d" % j for j in range(k + 2)) + "/leaf%d.rs" % k)
+    # in-scope files far below the source directory ("at any depth")
+    for depth in (16, 17, 18, 33, 64, 120):
+        names.append("/".join("p%d" % j for j in range(depth)) + "/at_depth_%d.rs" % depth)
+    # permission bits are not part of the scope rule
+    modes = {"ro444.rs": 0o444, "ro400.rs": 0o400, "exec755.rs": 0o755, "rodir/inner_of_readonly_dir.rs": 0o444, "ro_notes.txt": 0o444}
+    names += list(modes)
     for n in names:
         box.write(os.path.join(srcrel, n), STMT)
+    for n, m in modes.items():
+        os.chmod(os.path.join(src, n), m)
+    os.chmod(os.path.join(src, "rodir"), 0o555)
     # files outside the source dir
     box.write("outside_of_src.rs", STMT)
     box.write("other/o.rs", STMT)
@@ -90,7 +99,17 @@ def work(job):
             with open(os.path.join(trapbase, "src", "trap.rs"), "wb") as f:
                 f.write(STMT)
         cwd = {"config_dir": box.proj, "parent": box.root, "unrelated": unrelated}[cwdk]
-        if cform == "absolute":
+        if cform == "via_symlink":
+            # the file named on the command line is a symbolic link to a configuration kept elsewhere; "the directory containing
+            # the configuration file" is the directory of the path that was given (a src/ next to the link's target is a trap)
+            store = os.path.join(box.proj, "cfgstore", "shared")
+            os.makedirs(os.path.join(store, "src"))
+            os.rename(cfgp, os.path.join(store, "real-config.yaml"))
+            os.symlink(os.path.join("cfgstore", "shared", "real-config.yaml"), cfgp)
+            with open(os.path.join(store, "src", "trap_next_to_the_link_target.rs"), "wb") as f:
+                f.write(STMT)
+            carg = cfgp if rnd.random() < 0.5 else os.path.relpath(cfgp, cwd)
+        elif cform == "absolute":
             carg = cfgp
         elif cform == "relative":
             carg = os.path.relpath(cfgp, cwd)
@@ -138,7 +157,7 @@ def work(job):
     # (a scratch file the run creates itself - wherever it chooses to put it - did not exist before and is not "a file that was read";
     #  whether scratch files are cleaned up is C08's business, whether anything persists is covered by the snapshot diff above)
     read_out_of_scope = sorted(p for p in opened if p not in scope and p in before and before[p][0] == "f"
-                               and p not in ("proj/Breadlog.yaml", "proj/Breadlog.lock"))
+                               and p not in ("proj/Breadlog.yaml", "proj/Breadlog.lock", "proj/cfgstore/shared/real-config.yaml"))
     if read_out_of_scope:
         v.append(("out-of-scope-file-read", {"paths": read_out_of_scope[:4]}))
     if scope:
